@@ -23,24 +23,25 @@ from gen_exitsites import q
 
 # (regex on the canonical text of a call's function expression or of a whole statement) -> action name
 CALL_ACTS = [
-    (r"^control\.evaluate_objective$", "eval"),
-    (r"^control\.model\.change_point$", "chg"),
-    (r"^control\.model\.save_point$", "sav"),
-    (r"^control\.model\.add_new_sample$", "smp"),
-    (r"^control\.model\.add_new_point$", "adp"),
-    (r"^control\.soft_restart$", "soft"),
-    (r"^control\.reduce_rho$", "rho"),
-    (r"^control\.check_and_fix_geometry$", "geom"),
-    (r"^control\.add_new_direction_while_growing$", "grow"),
-    (r"^control\.move_furthest_points$", "move"),
-    (r"^control\.move_furthest_points_momentum$", "move"),
-    (r"^control\.trust_region_step$", "trs"),
-    (r"^control\.calculate_ratio$", "ratio"),
-    (r"^control\.choose_point_to_replace$", "choose"),
-    (r"^control\.model\.interpolate_mini_models_svd$", "itp"),
-    (r"^control\.model\.shift_base$", "shift"),
+    (r"^(?:control|self)\.evaluate_objective$", "eval"),
+    (r"^(?:control|self)\.model\.change_point$", "chg"),
+    (r"^(?:control|self)\.model\.save_point$", "sav"),
+    (r"^(?:control|self)\.model\.add_new_sample$", "smp"),
+    (r"^(?:control|self)\.model\.add_new_point$", "adp"),
+    (r"^(?:control|self)\.soft_restart$", "soft"),
+    (r"^(?:control|self)\.reduce_rho$", "rho"),
+    (r"^(?:control|self)\.check_and_fix_geometry$", "geom"),
+    (r"^(?:control|self)\.add_new_direction_while_growing$", "grow"),
+    (r"^(?:control|self)\.move_furthest_points$", "move"),
+    (r"^(?:control|self)\.move_furthest_points_momentum$", "move"),
+    (r"^(?:control|self)\.trust_region_step$", "trs"),
+    (r"^(?:control|self)\.calculate_ratio$", "ratio"),
+    (r"^(?:control|self)\.choose_point_to_replace$", "choose"),
+    (r"^(?:control|self)\.model\.interpolate_mini_models_svd$", "itp"),
+    (r"^(?:control|self)\.model\.shift_base$", "shift"),
     (r"^diagnostic_info\.save_info_from_control$", "diag"),
-    (r"^control\.terminate_from_slow_iterations$", "slowtest"),
+    (r"^(?:control|self)\.geometry_step$", "geomstep"),
+    (r"^(?:control|self)\.terminate_from_slow_iterations$", "slowtest"),
 ]
 
 
@@ -89,8 +90,10 @@ class P:
 
     def lean(self):
         k = self.kind
-        if k in ("done", "cont", "brk", "raise"):
+        if k in ("done", "cont", "brk", "raise", "ret"):
             return "." + k
+        if k == "loop":
+            return "(.loop\n %s\n %s)" % (self.a[0].lean(), self.a[1].lean())
         if k == "act":
             return "(.act %s %s)" % (q(self.a[0]), self.a[1].lean())
         if k == "rep":
@@ -109,11 +112,14 @@ class P:
 DONE = P("done")
 
 
-def block(stmts, k):
-    """translate a statement list followed by continuation k"""
+def block(stmts, k, general=False):
+    """translate a statement list followed by continuation k; general=True: function bodies (return, general loops, try/except
+    around action-free code) into SkelL.Prog"""
     if not stmts:
         return k
     st, rest = stmts[0], stmts[1:]
+    if general:
+        return block_general(st, rest, k)
     if isinstance(st, ast.Continue):
         return P("cont")
     if isinstance(st, ast.Break):
@@ -159,6 +165,106 @@ def block(stmts, k):
             kk = P("act", a, kk)
         return kk
     raise ValueError("statement %s at line %d not expressible" % (type(st).__name__, st.lineno))
+
+
+def block_general(st, rest, k):
+    B = lambda ss, kk: block(ss, kk, True)
+    if isinstance(st, ast.Continue):
+        return P("cont")
+    if isinstance(st, ast.Break):
+        return P("brk")
+    if isinstance(st, ast.Raise):
+        return P("raise")
+    if isinstance(st, ast.Return):
+        acts = stmt_acts(st) if st.value is not None else []
+        out = P("act", "ret:" + (ast.unparse(st.value) if st.value is not None else "None"), P("ret"))
+        for a in reversed(acts):
+            out = P("act", a, out)
+        return out
+    if isinstance(st, ast.If):
+        for n in ast.walk(st.test):
+            if isinstance(n, ast.Call) and any(re.match(rx, ast.unparse(n.func)) for rx, _ in CALL_ACTS):
+                raise ValueError("action inside a test at line %d" % st.lineno)
+        t, e, kk = B(st.body, DONE), B(st.orelse, DONE), B(rest, k)
+        if t.trivial() and e.trivial():
+            return kk
+        c = ast.unparse(st.test)
+        return P("ite", c, P("act", "T:" + c, t), P("act", "F:" + c, e), kk)
+    if isinstance(st, (ast.For, ast.While)):
+        if st.orelse:
+            raise ValueError("loop with else at line %d" % st.lineno)
+        body, kk = B(st.body, DONE), B(rest, k)
+        if body.trivial():
+            return kk
+        return P("loop", body, kk)
+    if isinstance(st, ast.Try):
+        if st.orelse or st.finalbody:
+            raise ValueError("try with else/finally at line %d" % st.lineno)
+        for s in st.body:
+            for n in ast.walk(s):
+                if isinstance(n, (ast.Continue, ast.Break, ast.Return, ast.Raise)):
+                    raise ValueError("try body with a jump at line %d" % st.lineno)
+                if isinstance(n, (ast.Expr, ast.Assign, ast.AugAssign)) and stmt_acts(n):
+                    raise ValueError("try body with an action at line %d" % st.lineno)
+        kk = B(rest, k)
+        out = kk
+        for hd in reversed(st.handlers):
+            c = "except " + (ast.unparse(hd.type) if hd.type is not None else "")
+            hb = B(hd.body, DONE)
+            out_h = P("ite", c, P("act", "T:" + c, hb), P("act", "F:" + c, DONE), kk)
+            out = out_h if out is kk else P("ite", c, P("act", "T:" + c, hb), P("act", "F:" + c, DONE), out)
+        return out
+    if isinstance(st, (ast.Expr, ast.Assign, ast.AugAssign, ast.Pass, ast.Assert)):
+        acts = stmt_acts(st) if not isinstance(st, (ast.Pass, ast.Assert)) else []
+        kk = B(rest, k)
+        for a in reversed(acts):
+            kk = P("act", a, kk)
+        return kk
+    raise ValueError("statement %s at line %d not expressible" % (type(st).__name__, st.lineno))
+
+
+CTRL_METHODS = ["add_new_direction_while_growing", "geometry_step", "check_and_fix_geometry", "move_furthest_points",
+                "move_furthest_points_momentum", "soft_restart", "initialise_coordinate_directions", "initialise_random_directions"]
+
+
+def collect_ctrl():
+    tree = ast.parse(open(os.path.join(core.REPO, "dfols", "controller.py")).read())
+    cls = [n for n in tree.body if isinstance(n, ast.ClassDef) and n.name == "Controller"][0]
+    fns = {n.name: n for n in cls.body if isinstance(n, ast.FunctionDef)}
+    out = []
+    for name in CTRL_METHODS:
+        try:
+            body = list(fns[name].body)
+            # falling off the end of a function is `return None`
+            prog = block(body, P("act", "ret:None", P("ret")), True)
+            out.append((name, prog, None))
+        except Exception as exc:
+            out.append((name, None, repr(exc)))
+    return out
+
+
+def regenerate_ctrl(ctx=None):
+    path = os.path.join(core.LEAN_DIR, "DfolsVerif", "Gen", "CtrlSkel.lean")
+    info = {}
+    L = []
+    for name, prog, err in collect_ctrl():
+        lname = "".join(w.capitalize() for w in name.split("_"))
+        lname = lname[0].lower() + lname[1:]
+        if prog is None:
+            if ctx is not None:
+                ctx.broke("gen:controller-skeleton:" + name, err)
+            L.append("-- TRANSLATION FAILED for %s: %s\n" % (name, err.replace("\n", " ")))
+        else:
+            L.append("/-- Controller.%s -/\ndef %s : SkelL.Prog :=\n %s\n" % (name, lname, prog.lean()))
+            info[name] = prog.size()
+    content = "\n".join(["/- GENERATED by harness/gen_skeleton.py from /repo's controller.py on every run — do not edit. -/",
+                         "import DfolsVerif.Kernels.SkeletonL", "namespace Dfols.Gen.Ctrl", ""] + L + ["end Dfols.Gen.Ctrl", ""])
+    old = open(path).read() if os.path.exists(path) else None
+    if old != content:
+        open(path, "w").write(content)
+    if ctx is not None:
+        ctx.cov["controller_skeletons"] = info
+    return info
 
 
 def collect():
@@ -209,3 +315,4 @@ if __name__ == "__main__":
     prog, after = collect()
     print(prog.size(), after)
     print(regenerate())
+    print(regenerate_ctrl())
